@@ -60,7 +60,9 @@ def tactic_ids():
 def order_s(draw, allow_none=True):
     ids = tactic_ids()
     real = [i for i in ids if i != 6] or ids
-    kind = draw(st.sampled_from(["default", "single", "single", "single", "perm", "subset", "reversed"]))
+    kind = draw(st.sampled_from(["default", "single", "single", "single", "perm", "subset", "reversed", "default", "single", "perm", "empty"]))
+    if kind == "empty":
+        return []        # a legal order: no tactic at all (refinement then has to fail, relaxation drops what it cannot transform)
     if kind == "default":
         return None if allow_none else list(real)
     if kind == "single":
